@@ -10,6 +10,7 @@ import Cuke.Driver.Norm
 import Cuke.Driver.Glue
 import Cuke.Driver.Report
 import Cuke.Driver.Frame
+import Cuke.Driver.Coll
 /-! `cuke-driver`: one request per line on stdin, one response per line on stdout. -/
 open Cuke Cuke.Wire Cuke.Driver
 
@@ -42,6 +43,7 @@ def dispatch (line : String) : String :=
       | "mon.c20" => handleMonC20 args
       | "trace.frame" => handleTraceFrame args
       | "mon.frame" => handleMonFrame args
+      | "trace.coll" => handleTraceColl args
       | _ => none
     match r with
     | some s => s
